@@ -217,7 +217,7 @@ def register(name, gen, truth, solve, check_model=None):
 # ======================================================================================= slitherlink
 def _slither_gen(rng, big):
     h, w = pick_shape(rng, [(1, 1), (1, 2), (2, 1), (2, 2), (2, 3), (3, 2), (1, 4), (3, 3), (3, 4), (4, 3)], 12 if big else 6)
-    return {"h": h, "w": w, "p": [[rng.choice([-1, -1, 0, 1, 2, 3]) for _ in range(w)] for _ in range(h)]}
+    return {"h": h, "w": w, "p": [[rng.choice([-1, -1, -1, 0, 1, 2, 3, 3, 4]) for _ in range(w)] for _ in range(h)]}
 
 
 def _slither_truth(i):
@@ -488,9 +488,9 @@ def _hey_gen(rng, big):
                 rects[k:k + 1] = [(y0, x0, y1, c), (y0, c, y1, x1)]
         rng.shuffle(rects)
         rooms = [[[y, x] for y in range(y0, y1) for x in range(x0, x1)] for y0, x0, y1, x1 in rects]
-        return {"h": h, "w": w, "rooms": rooms, "rects": [list(r) for r in rects], "clues": [rng.choice([-1, -1, 0, 1, 2]) for _ in rooms]}
+        return {"h": h, "w": w, "rooms": rooms, "rects": [list(r) for r in rects], "clues": [rng.choice([-1, -1, 0, 1, 2, 3, (len(rm) + 1) // 2]) for rm in rooms]}
     rooms = randrooms(rng, h, w, rng.choice([1, 2, 3, 4]))
-    return {"h": h, "w": w, "rooms": rooms, "clues": [rng.choice([-1, -1, 0, 1, 2]) for _ in rooms]}
+    return {"h": h, "w": w, "rooms": rooms, "clues": [rng.choice([-1, -1, 0, 1, 2, 3, (len(rm) + 1) // 2]) for rm in rooms]}
 
 
 def _hey_valid(i, B, r):
@@ -904,8 +904,8 @@ shading("lits", _lits_gen, _lits_valid, _lits_solve)
 def _aq_gen(rng, big):
     h, w = pick_shape(rng, SHAPES + [(4, 1), (5, 2), (4, 3)], 12 if big else 9)
     rooms = randrooms(rng, h, w, rng.choice([1, 2, 3]))
-    return {"h": h, "w": w, "rooms": rooms, "row": [rng.choice([-1, -1, 0, 1, 2]) for _ in range(h)],
-            "col": [rng.choice([-1, -1, 0, 1, 2]) for _ in range(w)]}
+    return {"h": h, "w": w, "rooms": rooms, "row": [rng.choice([-1, -1, 0, 1, 2, w - 1, w]) for _ in range(h)],
+            "col": [rng.choice([-1, -1, 0, 1, 2, h - 1, h]) for _ in range(w)]}
 
 
 def _aq_valid(i, S, r):
@@ -1343,7 +1343,7 @@ def latin(nn):
 
 def _bld_gen(rng, big):
     nn = rng.choice([1, 2, 3, 3, 4])
-    cl = [[rng.choice([0, 0, 0, 1, 2, 3]) if rng.random() < 0.5 else 0 for _ in range(nn)] for _ in range(4)]
+    cl = [[rng.choice([0, 0, 0, 1, 2, 3, nn]) if rng.random() < 0.5 else 0 for _ in range(nn)] for _ in range(4)]
     return {"n": nn, "cl": cl}
 
 
@@ -1428,7 +1428,8 @@ def _between(seq):
 
 def _db_gen(rng, big):
     nn = rng.choice([2, 3, 4, 4] + ([5] if big else []))
-    return {"n": nn, "row": [rng.choice([-1, -1, 0, 1, 2, 3]) for _ in range(nn)], "col": [rng.choice([-1, -1, 0, 1, 2, 3]) for _ in range(nn)]}
+    top = sum(range(1, nn - 1))  # the largest sum: both black cells at the ends of the line
+    return {"n": nn, "row": [rng.choice([-1, -1, 0, 1, 2, 3, top]) for _ in range(nn)], "col": [rng.choice([-1, -1, 0, 1, 2, 3, top]) for _ in range(nn)]}
 
 
 def _db_truth(i):
@@ -1687,7 +1688,7 @@ def _cmp_gen(rng, big):
     cells = rng.sample(allc(h, w), k)
     prob = []
     for y, x in cells:
-        prob.append([y, x] + [rng.choice([-1, -1, 0, 1, 2]) for _ in range(4)])
+        prob.append([y, x] + [rng.choice([-1, -1, 0, 1, 2, 3, h * w - 1]) for _ in range(4)])
     return {"h": h, "w": w, "prob": prob}
 
 
@@ -1862,7 +1863,7 @@ def _shaka_gen(rng, big):
         p = [[None] * w for _ in range(h)]
         for y, x in allc(h, w):
             if rng.random() < 0.3:
-                p[y][x] = rng.choice([-1, -1, 0, 1, 2])
+                p[y][x] = rng.choice([-1, -1, 0, 1, 2, 3, 4])  # 4 = every side of the black cell carries a triangle
         whites = sum(1 for y, x in allc(h, w) if p[y][x] is None)
         if whites <= (8 if big else 6):
             return {"h": h, "w": w, "p": p}
